@@ -610,6 +610,37 @@ pub fn c18(tier: Tier, report: &mut Report) {
         charfam.push(format!("the a{c}b of"));
         charfam.push(format!("ab{c} and"));
     }
+    // every proper noun of the dictionary (title-casing copies its listed capitalisation over the
+    // word) in every spelling that may still resolve to the entry: lower, UPPER, listed, inverted
+    // case, typographic ligatures for fi/fl/ff/ffi/ffl/st, curly apostrophe — mid-title and first
+    {
+        use harper_core::Dictionary;
+        let mut nouns: Vec<String> = curated
+            .words_iter()
+            .filter(|w| curated.get_word_metadata(w).map(|m| m.is_proper_noun()).unwrap_or(false))
+            .filter(|w| w.iter().all(|c| c.is_alphabetic() || *c == '\''))
+            .map(|w| w.iter().collect::<String>())
+            .collect();
+        nouns.sort();
+        for w in nouns.iter() {
+            let lower = w.to_lowercase();
+            let mut vars: Vec<String> = vec![lower.clone(), w.to_uppercase(), w.clone()];
+            vars.push(w.chars().map(|c| if c.is_uppercase() { c.to_lowercase().next().unwrap() } else { c.to_uppercase().next().unwrap() }).collect());
+            for (from, to) in [("ffi", "ﬃ"), ("ffl", "ﬄ"), ("ff", "ﬀ"), ("fi", "ﬁ"), ("fl", "ﬂ"), ("st", "ﬆ")] {
+                if lower.contains(from) {
+                    vars.push(lower.replacen(from, to, 1));
+                }
+            }
+            if w.contains('\'') {
+                vars.push(w.replace('\'', "’"));
+                vars.push(lower.replace('\'', "’"));
+            }
+            for v in vars {
+                charfam.push(format!("crossing the {v} ocean"));
+                charfam.push(format!("{v} is near"));
+            }
+        }
+    }
     let nchar = charfam.len() as u64;
     let n = total + seeds.len() as u64 + nchar;
     let results = par_chunks(n, 5000, ncpu(), |s, e| {
@@ -666,7 +697,7 @@ pub fn c18(tier: Tier, report: &mut Report) {
     report.add("distinct_nontrivial", ch);
     report.set("token_sequences", total);
     report.set("seed_sentences", seeds.len() as u64);
-    report.set("unicode_letter_cases", nchar);
+    report.set("unicode_letter_and_proper_noun_cases", nchar);
     report.sample(json!({"engine":"E1","text": "the iPhone and o’clock: x-ray"}));
     report.sample(json!({"engine":"E1","text": seeds.get(700).cloned().unwrap_or_default()}));
 }
